@@ -449,6 +449,42 @@ theorem hashed_denial_is_paid_for (p : Policy) (hm : p.mode = .enforce) (mc : Na
   | ok => exact hpaid rfl
   | limit k lim => exact absurd rfl (h k lim)
 
+/-- a denial proof never lowers the tree's NSEC3 counter. -/
+theorem nsec3_counter_mono (p : Policy) (hm : p.mode = .enforce) (mc : Nat) (nodata : Bool)
+    (ring : List String) (base : String) (labels : List String) (sh : Shared) (memo : N3Memo) :
+    sh.ctr.get .nsec3Hash ≤ (n3Verify p mc nodata ring base labels sh memo).1.ctr.get .nsec3Hash := by
+  have hb := (n3Run_bounds p hm mc (n3Plan nodata ring (n3Suffixes base labels)).1 [] sh memo).1
+  unfold n3Verify
+  generalize n3Run p mc (n3Plan nodata ring (n3Suffixes base labels)).1 [] sh memo = r at hb
+  obtain ⟨s1, m1, r1⟩ := r
+  cases r1 <;> exact hb
+
+/-- **A ring above the iteration ceiling costs nothing**: no hash is requested, the counter and
+the memo are untouched, and the verdict is never `secure`. -/
+theorem unsafe_ring_costs_nothing (p : Policy) (mc maxIter iters : Nat) (nodata : Bool) (ring : List String)
+    (base : String) (labels : List String) (sh : Shared) (memo : N3Memo) (h : maxIter < iters) :
+    n3VerifyIter p mc maxIter iters nodata ring base labels sh memo = (sh, memo, .bogus) := by
+  simp [n3VerifyIter, h]
+
+/-- **The SHA-1 rounds one request tree can be made to spend on hashed denials are bounded by
+`MaxNSEC3Hashes × (maxNSEC3Iterations + 1)`**, whatever iteration count the zone advertises
+(each hash of a ring advertising `iters` costs `iters + 1` rounds per label block): the rounds
+this proof adds never exceed what the remaining allowance buys at the ceiling. -/
+theorem nsec3_rounds_le_budget (p : Policy) (hm : p.mode = .enforce) (mc maxIter iters : Nat) (nodata : Bool)
+    (ring : List String) (base : String) (labels : List String) (sh : Shared) (memo : N3Memo)
+    (hle : sh.ctr.get .nsec3Hash ≤ p.caps.get .nsec3Hash) :
+    ((n3VerifyIter p mc maxIter iters nodata ring base labels sh memo).1.ctr.get .nsec3Hash - sh.ctr.get .nsec3Hash) * (iters + 1)
+      ≤ (p.caps.get .nsec3Hash - sh.ctr.get .nsec3Hash) * (maxIter + 1) := by
+  unfold n3VerifyIter
+  by_cases h : maxIter < iters
+  · simp [h]
+  · simp only [h, ↓reduceIte]
+    have h1 := nsec3_hashes_le_budget p hm mc nodata ring base labels sh memo hle
+    exact Nat.mul_le_mul (by omega) (by omega)
+
+/-- the iteration ceiling the driver's model uses is the code's. -/
+theorem nsec3_iteration_cap_fact : SdnsVerif.Gen.C12.max_nsec3_iterations = 150 := by decide
+
 /-- the memo ceiling the driver's model uses is the code's, and every hashed-denial verifier the
 resolver is required to run (name error, NODATA, insecure delegation, wildcard expansion: five call
 sites in resolver.go) is handed `r.dnssecWork(ctx)`, the adapter that debits the request's ledger. -/
@@ -760,5 +796,9 @@ example :
 -- NODATA at an existing name: one hash
 example : (n3Verify (polN3 4) 64 true ringN3 "host.n3.test." [] {} none).2.2 = .secure ∧
     (n3Verify (polN3 4) 64 true ringN3 "host.n3.test." [] {} none).1.ctr.get .nsec3Hash = 1 := by decide
+
+-- iteration ceiling: at 150 the proof is charged as usual, at 151 the ring is unusable and nothing is spent
+example : (n3VerifyIter (polN3 4) 64 150 150 false ringN3 "n3.test." ["a", "b"] {} none).1.ctr.get .nsec3Hash = 4 := by decide
+example : n3VerifyIter (polN3 4) 64 150 151 false ringN3 "n3.test." ["a", "b"] {} none = ({}, none, .bogus) := by decide
 
 end SdnsVerif.Props.C12
